@@ -91,7 +91,9 @@ func channelSelect(L *LState) int {
 		})
 	}
 
+	verifSelectPre(L, cases)
 	pos, recv, rok := reflect.Select(cases)
+	verifChanPost(L, 2, pos, rok)
 
 	if L.ctx != nil && pos == L.GetTop() {
 		return 0
@@ -154,9 +156,13 @@ func channelReceive(L *LState) int {
 			Chan: rch,
 			Send: reflect.ValueOf(nil),
 		}}
+		verifChanPre(L, 1, rch)
 		_, v, ok = reflect.Select(cases)
+		verifChanPost(L, 1, 1, ok)
 	} else {
+		verifChanPre(L, 1, rch)
 		v, ok = rch.Recv()
+		verifChanPost(L, 1, 1, ok)
 	}
 	if ok {
 		L.Push(LTrue)
@@ -171,13 +177,17 @@ func channelReceive(L *LState) int {
 func channelSend(L *LState) int {
 	rch := checkChannel(L, 1)
 	v := checkGoroutineSafe(L, 2)
+	verifChanPre(L, 0, rch)
 	rch.Send(reflect.ValueOf(v))
+	verifChanPost(L, 0, 0, true)
 	return 0
 }
 
 func channelClose(L *LState) int {
 	rch := checkChannel(L, 1)
+	verifChanPre(L, 3, rch)
 	rch.Close()
+	verifChanPost(L, 3, 0, true)
 	return 0
 }
 
